@@ -11,7 +11,24 @@ package main
 //     namespace constant;
 //   - the failure conditions the server replies with and their numeric values
 //     (iota block of internal/saslerr/errors.go);
-//   - the constant of the "l > 1" payload rule.
+//   - the condition under which negotiateServer decodes a payload as base64;
+//   - the feature VALUE: the function literals (List, Parse, Negotiate) of the
+//     StreamFeature literal of newSASL are closures over newSASL's variables and
+//     one value may serve any number of connections.  Reported: the variables
+//     newSASL declares besides its parameters; for each closure the variables
+//     of newSASL it mentions; every use of such a variable that can change it or
+//     hand out a reference into it (assignment through any selector, index,
+//     slice, dereference or type assertion; ++/--; address-of; slicing; first
+//     argument of append/copy; method call on it); where the value that Parse
+//     decodes <mechanisms/> into is declared (in the call, in newSASL, at
+//     package level); the package-level variables of sasl.go and the
+//     assignments to them; assignments through the `mechanisms` / `data`
+//     parameters of negotiateClient / negotiateServer.  The model
+//     (coq/C03/Hist.v) keeps what Parse returns as per-connection data on a
+//     heap of backing arrays and is parametric in the decode target; the proof
+//     side demands "declared in the call" and empty write lists;
+//   - every call of base64.StdEncoding.Decode and whether its error result is
+//     tested and returned by the statement that follows it.
 // Control flow is modelled by hand in coq/C03/Model.v.
 
 import (
@@ -195,27 +212,42 @@ func (g *gen) saslTables() {
 		g.errs = append(g.errs, "sasl.go: func decodeSASLChallenge not found")
 	}
 
-	// the "l > N" payload rule of negotiateServer
-	thr := -1
+	// the guard of the base64 decode of negotiateServer: the if statement whose
+	// body contains the call of base64.StdEncoding.Decode — its condition and,
+	// when it has the form `if p := X; cond`, the expression X
+	guard, subject := "", ""
 	if fd := funcDecl(f, "negotiateServer"); fd != nil {
 		ast.Inspect(fd.Body, func(x ast.Node) bool {
 			is, ok := x.(*ast.IfStmt)
-			if !ok {
+			if !ok || guard != "" {
 				return true
 			}
-			if be, ok := is.Cond.(*ast.BinaryExpr); ok && be.Op == token.GTR && types.ExprString(be.X) == "l" {
-				if bl, ok := be.Y.(*ast.BasicLit); ok {
-					thr, _ = strconv.Atoi(bl.Value)
+			direct := false
+			for _, st := range is.Body.List {
+				ast.Inspect(st, func(y ast.Node) bool {
+					if _, nested := y.(*ast.IfStmt); nested {
+						return false
+					}
+					if ce, ok := y.(*ast.CallExpr); ok && types.ExprString(ce.Fun) == "base64.StdEncoding.Decode" {
+						direct = true
+					}
+					return true
+				})
+			}
+			if direct {
+				guard = types.ExprString(is.Cond)
+				if as, ok := is.Init.(*ast.AssignStmt); ok && len(as.Lhs) == 1 && len(as.Rhs) == 1 {
+					subject = types.ExprString(as.Rhs[0])
 				}
 			}
 			return true
 		})
 	}
-	if thr < 0 {
-		g.errs = append(g.errs, "sasl.go: negotiateServer: `if l > N` not found")
-		thr = 0
+	if guard == "" {
+		g.errs = append(g.errs, "sasl.go: negotiateServer: the if statement guarding base64.StdEncoding.Decode not found")
 	}
-	g.p("Definition sasl_payload_threshold : nat := %d.   (* if l > %d { decode } *)\n", thr, thr)
+	g.p("Definition sasl_server_decode_subject : bytes := %s.   (* %s *)\n", saslStr(subject), subject)
+	g.p("Definition sasl_server_decode_guard : bytes := %s.   (* if %s { decode } *)\n", saslStr(guard), guard)
 
 	// conditions: iota block
 	var conds []string
@@ -265,4 +297,391 @@ func (g *gen) saslTables() {
 		g.p("%s", saslStr(c))
 	}
 	g.p("].  (* %v *)\n", used)
+
+	g.saslFeatureValue(f)
+	g.saslDecodeChecks(f)
+}
+
+// saslRoot returns the identifier at the root of an expression that denotes a
+// variable or a part of it.
+func saslRoot(e ast.Expr) *ast.Ident {
+	for {
+		switch x := e.(type) {
+		case *ast.Ident:
+			return x
+		case *ast.SelectorExpr:
+			e = x.X
+		case *ast.IndexExpr:
+			e = x.X
+		case *ast.SliceExpr:
+			e = x.X
+		case *ast.StarExpr:
+			e = x.X
+		case *ast.ParenExpr:
+			e = x.X
+		case *ast.TypeAssertExpr:
+			e = x.X
+		default:
+			return nil
+		}
+	}
+}
+
+// saslMutations calls report(root identifier, kind) for every syntactic use in
+// body that can change a variable or hand out a reference into it.
+func saslMutations(body ast.Node, report func(id *ast.Ident, kind string)) {
+	ast.Inspect(body, func(n ast.Node) bool {
+		switch x := n.(type) {
+		case *ast.AssignStmt:
+			if x.Tok != token.DEFINE {
+				for _, l := range x.Lhs {
+					if id := saslRoot(l); id != nil {
+						report(id, "assign")
+					}
+				}
+			}
+		case *ast.IncDecStmt:
+			if id := saslRoot(x.X); id != nil {
+				report(id, "incdec")
+			}
+		case *ast.UnaryExpr:
+			if x.Op == token.AND {
+				if id := saslRoot(x.X); id != nil {
+					report(id, "addr")
+				}
+			}
+		case *ast.SliceExpr:
+			if id := saslRoot(x.X); id != nil {
+				report(id, "slice")
+			}
+		case *ast.RangeStmt:
+			if x.Tok == token.ASSIGN {
+				for _, l := range []ast.Expr{x.Key, x.Value} {
+					if l != nil {
+						if id := saslRoot(l); id != nil {
+							report(id, "assign")
+						}
+					}
+				}
+			}
+		case *ast.CallExpr:
+			if fn, is := x.Fun.(*ast.Ident); is && (fn.Name == "append" || fn.Name == "copy") && len(x.Args) > 0 {
+				if id := saslRoot(x.Args[0]); id != nil {
+					report(id, fn.Name)
+				}
+			}
+			if sel, is := x.Fun.(*ast.SelectorExpr); is {
+				if id := saslRoot(sel.X); id != nil {
+					report(id, "method")
+				}
+			}
+		}
+		return true
+	})
+}
+
+func (g *gen) saslPairs(name string, ps [][2]string) {
+	g.p("Definition %s : list (bytes * bytes) := [", name)
+	for i, p := range ps {
+		if i > 0 {
+			g.p("; ")
+		}
+		g.p("(%s, %s) (* %s, %s *)", saslStr(p[0]), saslStr(p[1]), p[0], p[1])
+	}
+	g.p("].\n")
+}
+
+func (g *gen) saslNames(name string, ns []string) {
+	g.p("Definition %s : list bytes := [", name)
+	for i, n := range ns {
+		if i > 0 {
+			g.p("; ")
+		}
+		g.p("%s (* %s *)", saslStr(n), n)
+	}
+	g.p("].\n")
+}
+
+func (g *gen) saslFeatureValue(f *ast.File) {
+	fd := funcDecl(f, "newSASL")
+	if fd == nil || fd.Body == nil {
+		g.errs = append(g.errs, "sasl.go: func newSASL not found")
+		return
+	}
+	g.p("\n(* ---- sasl.go newSASL: the feature value and what its closures capture ---- *)\n")
+	// variables of newSASL: parameters, and locals declared outside function literals
+	outer := map[*ast.Object]string{}
+	var params, locals []string
+	if fd.Type.Params != nil {
+		for _, fl := range fd.Type.Params.List {
+			for _, id := range fl.Names {
+				if id.Obj != nil && id.Name != "_" {
+					outer[id.Obj] = id.Name
+					params = append(params, id.Name)
+				}
+			}
+		}
+	}
+	addLocal := func(id *ast.Ident) {
+		if id != nil && id.Obj != nil && id.Name != "_" {
+			if _, seen := outer[id.Obj]; !seen {
+				outer[id.Obj] = id.Name
+				locals = append(locals, id.Name)
+			}
+		}
+	}
+	ast.Inspect(fd.Body, func(n ast.Node) bool {
+		switch x := n.(type) {
+		case *ast.FuncLit:
+			return false
+		case *ast.ValueSpec:
+			for _, id := range x.Names {
+				addLocal(id)
+			}
+		case *ast.AssignStmt:
+			if x.Tok == token.DEFINE {
+				for _, l := range x.Lhs {
+					if id, is := l.(*ast.Ident); is {
+						addLocal(id)
+					}
+				}
+			}
+		case *ast.RangeStmt:
+			if x.Tok == token.DEFINE {
+				for _, l := range []ast.Expr{x.Key, x.Value} {
+					if id, is := l.(*ast.Ident); is {
+						addLocal(id)
+					}
+				}
+			}
+		}
+		return true
+	})
+	g.saslNames("sasl_newSASL_params", params)
+	g.p("(* variables newSASL declares besides its parameters (outside the function literals) *)\n")
+	g.saslNames("sasl_newSASL_locals", locals)
+
+	// the closures of the StreamFeature literal
+	type clo struct {
+		name string
+		lit  *ast.FuncLit
+	}
+	var clos []clo
+	ast.Inspect(fd.Body, func(x ast.Node) bool {
+		cl, is := x.(*ast.CompositeLit)
+		if !is || types.ExprString(cl.Type) != "StreamFeature" {
+			return true
+		}
+		for _, el := range cl.Elts {
+			if kv, is := el.(*ast.KeyValueExpr); is {
+				if fl, is := kv.Value.(*ast.FuncLit); is {
+					clos = append(clos, clo{types.ExprString(kv.Key), fl})
+				}
+			}
+		}
+		return false
+	})
+	var cnames []string
+	var caps, writes [][2]string
+	var parse *ast.FuncLit
+	for _, c := range clos {
+		cnames = append(cnames, c.name)
+		if c.name == "Parse" {
+			parse = c.lit
+		}
+		seen := map[string]bool{}
+		ast.Inspect(c.lit.Body, func(n ast.Node) bool {
+			if id, is := n.(*ast.Ident); is && id.Obj != nil {
+				if name, is := outer[id.Obj]; is && !seen[name] {
+					seen[name] = true
+					caps = append(caps, [2]string{c.name, name})
+				}
+			}
+			return true
+		})
+		saslMutations(c.lit.Body, func(id *ast.Ident, kind string) {
+			if id.Obj == nil {
+				return
+			}
+			if name, is := outer[id.Obj]; is {
+				writes = append(writes, [2]string{c.name, kind + " " + name})
+			}
+		})
+	}
+	g.saslNames("sasl_feature_closures", cnames)
+	g.p("(* (closure, variable of newSASL it mentions) *)\n")
+	g.saslPairs("sasl_closure_captures", caps)
+	g.p("(* (closure, use of a variable of newSASL that can change it or hand out a reference into it) *)\n")
+	g.saslPairs("sasl_closure_writes", writes)
+
+	// where the value Parse decodes into is declared: 0 in the call of Parse,
+	// 1 in newSASL (captured by the feature value), 2 elsewhere (package level)
+	scope, target := -1, ""
+	if parse != nil {
+		ast.Inspect(parse.Body, func(n ast.Node) bool {
+			ce, is := n.(*ast.CallExpr)
+			if !is || len(ce.Args) == 0 {
+				return true
+			}
+			sel, is := ce.Fun.(*ast.SelectorExpr)
+			if !is || (sel.Sel.Name != "DecodeElement" && sel.Sel.Name != "Decode") {
+				return true
+			}
+			id := saslRoot(ce.Args[0])
+			if ue, is := ce.Args[0].(*ast.UnaryExpr); is && ue.Op == token.AND {
+				id = saslRoot(ue.X)
+			}
+			if id == nil {
+				return true
+			}
+			target = id.Name
+			switch {
+			case id.Obj == nil:
+				scope = 2
+			case outer[id.Obj] != "":
+				scope = 1
+			default:
+				if d, is := id.Obj.Decl.(ast.Node); is && d.Pos() >= parse.Pos() && d.End() <= parse.End() {
+					scope = 0
+				} else {
+					scope = 2
+				}
+			}
+			return true
+		})
+	}
+	if scope < 0 {
+		g.errs = append(g.errs, "sasl.go: newSASL: Parse closure with a DecodeElement call not found")
+		scope = 2
+	}
+	g.p("(* where the value that Parse decodes <mechanisms/> into (`%s`) is declared: 0 = inside the call of Parse, 1 = in newSASL (captured by the feature value), 2 = elsewhere *)\n", target)
+	g.p("Definition sasl_parse_target_scope : nat := %d.\n", scope)
+
+	// package-level variables of sasl.go and assignments to them
+	pkg := map[*ast.Object]string{}
+	var pkgNames []string
+	for _, d := range f.Decls {
+		gd, is := d.(*ast.GenDecl)
+		if !is || gd.Tok != token.VAR {
+			continue
+		}
+		for _, s := range gd.Specs {
+			for _, id := range s.(*ast.ValueSpec).Names {
+				if id.Obj != nil && id.Name != "_" {
+					pkg[id.Obj] = id.Name
+					pkgNames = append(pkgNames, id.Name)
+				}
+			}
+		}
+	}
+	var pkgWrites, paramWrites [][2]string
+	for _, d := range f.Decls {
+		fn, is := d.(*ast.FuncDecl)
+		if !is || fn.Body == nil {
+			continue
+		}
+		watched := map[*ast.Object]string{}
+		if fn.Name.Name == "negotiateClient" || fn.Name.Name == "negotiateServer" {
+			for _, fl := range fn.Type.Params.List {
+				for _, id := range fl.Names {
+					if id.Obj != nil && (id.Name == "mechanisms" || id.Name == "data") {
+						watched[id.Obj] = id.Name
+					}
+				}
+			}
+		}
+		saslMutations(fn.Body, func(id *ast.Ident, kind string) {
+			if id.Obj == nil {
+				return
+			}
+			if name, is := pkg[id.Obj]; is && kind != "method" {
+				pkgWrites = append(pkgWrites, [2]string{fn.Name.Name, kind + " " + name})
+			}
+			if name, is := watched[id.Obj]; is && kind != "method" {
+				paramWrites = append(paramWrites, [2]string{fn.Name.Name, kind + " " + name})
+			}
+		})
+	}
+	g.saslNames("sasl_package_vars", pkgNames)
+	g.p("(* (function, assignment / address-of / slicing of a package-level variable of sasl.go) *)\n")
+	g.saslPairs("sasl_package_var_writes", pkgWrites)
+	g.p("(* (function, assignment / address-of / slicing through its parameter `mechanisms` or `data`) *)\n")
+	g.saslPairs("sasl_param_writes", paramWrites)
+}
+
+// saslDecodeChecks lists the calls of base64.StdEncoding.Decode in sasl.go as
+// (function, "checked" | "unchecked"): checked = the call is the right-hand
+// side of an assignment whose last target is an error variable e, and the
+// next statement of the same block is `if e != nil { ...; return ... }` (or the
+// call is the Init of such an if statement).
+func (g *gen) saslDecodeChecks(f *ast.File) {
+	isDecode := func(e ast.Expr) bool {
+		ce, is := e.(*ast.CallExpr)
+		return is && types.ExprString(ce.Fun) == "base64.StdEncoding.Decode"
+	}
+	returnsOn := func(is *ast.IfStmt, errName string) bool {
+		if is == nil || types.ExprString(is.Cond) != errName+" != nil" || len(is.Body.List) == 0 {
+			return false
+		}
+		_, ok := is.Body.List[len(is.Body.List)-1].(*ast.ReturnStmt)
+		return ok
+	}
+	errOf := func(as *ast.AssignStmt) string {
+		if len(as.Lhs) == 0 {
+			return ""
+		}
+		if id, is := as.Lhs[len(as.Lhs)-1].(*ast.Ident); is {
+			return id.Name
+		}
+		return ""
+	}
+	var out [][2]string
+	for _, d := range f.Decls {
+		fn, is := d.(*ast.FuncDecl)
+		if !is || fn.Body == nil {
+			continue
+		}
+		total, checked := 0, 0
+		stmts := func(list []ast.Stmt) {
+			for i, st := range list {
+				as, is := st.(*ast.AssignStmt)
+				if !is || len(as.Rhs) != 1 || !isDecode(as.Rhs[0]) {
+					continue
+				}
+				if i+1 < len(list) {
+					if nx, is := list[i+1].(*ast.IfStmt); is && nx.Init == nil && returnsOn(nx, errOf(as)) {
+						checked++
+					}
+				}
+			}
+		}
+		ast.Inspect(fn.Body, func(n ast.Node) bool {
+			switch x := n.(type) {
+			case *ast.CallExpr:
+				if isDecode(x) {
+					total++
+				}
+			case *ast.BlockStmt:
+				stmts(x.List)
+			case *ast.CaseClause:
+				stmts(x.Body)
+			case *ast.CommClause:
+				stmts(x.Body)
+			case *ast.IfStmt:
+				if as, is := x.Init.(*ast.AssignStmt); is && len(as.Rhs) == 1 && isDecode(as.Rhs[0]) && returnsOn(x, errOf(as)) {
+					checked++
+				}
+			}
+			return true
+		})
+		for i := 0; i < total; i++ {
+			v := "unchecked"
+			if i < checked {
+				v = "checked"
+			}
+			out = append(out, [2]string{fn.Name.Name, v})
+		}
+	}
+	g.p("\n(* ---- sasl.go: calls of base64.StdEncoding.Decode and whether the error is tested and returned at once ---- *)\n")
+	g.saslPairs("sasl_b64_decodes", out)
 }
